@@ -418,7 +418,7 @@ def f_treeamend():
 
 # -- more families for the history checks (C01, C04, C06, C07) -------------------------------------
 
-def f_glob(present=("a", "b"), mode="tree", subs="none", cfg=0, nest=0, deep=0, broken=0):
+def f_glob(present=("a", "b"), mode="tree", subs="none", cfg=0, nest=0, deep=0, broken=0, mid=0):
     """One step per file matching data/${*n}.txt; the matches are static by tree or by pattern.
     subs="ab" restricts the named wildcard to [ab]: data/zz.txt then matches the default pattern
     of the wildcard but not the glob. cfg=1: the globbing is done by a sub-plan g.py that also
@@ -454,7 +454,13 @@ def f_glob(present=("a", "b"), mode="tree", subs="none", cfg=0, nest=0, deep=0, 
         files["g.py"] = script([["read", "cfg.txt"], globbing])
         # broken=1: the plan fails before it gets to define the globbing sub-plan
         tail = [["exit", 1]] if broken else [["plan", "./g.py", {"inp": ["cfg.txt"]}]]
-        files["plan.py"] = script([decl, ["static", "cfg.txt", "g.py"], *tail])
+        statics = ["static", "cfg.txt", "g.py"]
+        if mid:
+            # one more creator level: the plan starts mid.py, which starts the globbing g.py
+            files["mid.py"] = script([["plan", "./g.py", {"inp": ["cfg.txt"]}]])
+            statics.append("mid.py")
+            tail = [["exit", 1]] if broken else [["plan", "./mid.py"]]
+        files["plan.py"] = script([decl, statics, *tail])
     else:
         files["plan.py"] = script([decl, globbing])
     return files
@@ -621,14 +627,17 @@ def f_planuse(use=1, chain=2, src="x", psrc="c", need="OPTIONAL"):
     return {"plan.py": script(root), "sub.py": script(sub), "src.txt": src + "\n", "cfg.txt": psrc + "\n"}
 
 
-def f_failwrite(fail=0, present=1, src="x", outdir="."):
+def f_failwrite(fail=0, present=1, src="x", outdir=".", need="DEFAULT", consumer=0):
     """W: ./w.py writes w.out from src.txt; with fail=1 it writes other content and then fails.
-    present=0: the plan no longer defines W."""
+    present=0: the plan no longer defines W. need=OPTIONAL with consumer=1: W is optional and
+    needed only by the step C that copies its output."""
     out = "w.out" if outdir == "." else f"{outdir}/w.out"
     w = [["write", out, ["src.txt"], "failing"], ["exit", 1]] if fail else [["write", out, ["src.txt"]]]
     root = [["static", "src.txt", "w.py"]]
     if present:
-        root.append(["run", "./w.py", {"inp": ["src.txt"], "out": [out]}])
+        root.append(["run", "./w.py", {"inp": ["src.txt"], "out": [out], "optional": need == "OPTIONAL"}])
+        if consumer:
+            root.append(tr("C", [out], ["c.out"]))
     return {"plan.py": script(root), "w.py": script(w), "src.txt": src + "\n"}
 
 
@@ -675,7 +684,8 @@ DOMAINS = {
     "f_dynout": {"target": ("dyn1", "dyn2"), "consumer": ("none", "dyn1", "dyn2"), "sub": (0, 1)},
     "f_hold": {"nesting": (2, 1), "v": (1, 2)},
     "f_detfinish": {"broken": (1, 0), "lead": (0, 2)},
-    "f_failwrite": {"fail": (0, 1), "present": (1, 0), "src": ("x", "y"), "outdir": (".", "gen/sub")},
+    "f_failwrite": {"fail": (0, 1), "present": (1, 0), "src": ("x", "y"), "outdir": (".", "gen/sub"),
+                    "need": ("DEFAULT", "OPTIONAL"), "consumer": (0, 1)},
     "f_planuse": {"use": (1, 0), "chain": (2, 1), "src": ("x", "y"), "psrc": ("c", "d"),
                   "need": ("OPTIONAL", "DEFAULT")},
 }
